@@ -9,9 +9,18 @@ Clauses of the statement -> checks
         C15/robust-osc           OSC strings with valid/invalid payloads and every terminator
         C15/robust-charset-utf8  charset designations/shifts x valid, truncated, invalid UTF-8
         C15/robust-view-shape    scrolled-back view x resizes: content() stays height x width
+      "a grid of exactly height rows by width cells" also means height x width *independent* cells: after every
+      step of every history no two rows of `term` / the scroll-back are one and the same list object (`aliasing`;
+      a write to one of two aliased rows shows up in the other).  The deductive contracts hold rows by value and
+      cannot see this by construction, so it is decided here.
   (2) screen contents and cursor equal a reference VT100 (spec/vt100.py) on the statement's subset:
         C15/faithful-<family>    exhaustive token sequences per family (text, cursor, erase, insdel,
                                  region, sgr) + C15/faithful-mixed (seeded random, all families)
+        C15/faithful-resize      the same with resizes as tokens (spec/vt100.py VT100.resize): height grown by
+                                 1, 2, 3 rows with an empty / a partly sufficient scroll-back, width grown and
+                                 shrunk, then cursor addressing and output into the new rows / columns
+        C15/faithful-sgr-accumulate  SGR sequences (each followed by a printed cell) that select 24-bit, 256-colour,
+                                 basic and bright colours on either side and non-resetting later SGRs
         C15/faithful-canvas-cursor  the displayed cursor (TermCanvas.cursor) on the same cases
   (3) lines scrolled off the top are kept in order and shown when scrolled back:
         C15/scrollback-kept, C15/scrollback-view
@@ -36,7 +45,7 @@ import threading
 import time
 
 from bounded.common import Check, rng
-from spec.vt100 import ANY, VT100, Ambiguous, OutOfSubset
+from spec.vt100 import ANY, VT100, Ambiguous, OutOfSubset, colour_matches
 
 from urwid import str_util, util, vterm
 from urwid.display import AttrSpec
@@ -207,6 +216,19 @@ def _cell_ok(cell):
     return isinstance(cell, tuple) and len(cell) == 3 and (cell[0] is None or isinstance(cell[0], AttrSpec)) and (cell[1] is None or isinstance(cell[1], str)) and isinstance(cell[2], bytes) and len(cell[2]) > 0
 
 
+def aliasing(tc):
+    """Statement: "keeps a grid of exactly height rows by width cells".  height x width cells are height x width
+    independent places: two rows that are the same list object are one row shown twice.  Returns None or a
+    description of the first pair of rows of term + scroll-back that are the same object."""
+    seen = {}
+    for where, rows in (("term", tc.term), ("scrollback", tc.scrollback_buffer)):
+        for i, row in enumerate(rows):
+            if id(row) in seen:
+                return f"{where} row {i} is the very same list object as {seen[id(row)][0]} row {seen[id(row)][1]}: a write to a cell of one changes the other"
+            seen[id(row)] = (where, i)
+    return None
+
+
 def invariants(tc, wd, w, h):
     """The grid invariant GI of the statement.  Returns [(signature, reason), ...] (empty = holds).
     May raise if content() raises (the caller reports that as an exception of the code under test)."""
@@ -219,6 +241,9 @@ def invariants(tc, wd, w, h):
         if len(row) != w:
             out.append(("term row width", f"term row {y} has {len(row)} cells, expected {w}"))
             break
+    al = aliasing(tc)
+    if al:
+        out.append(("row aliasing", al))
     rows = list(tc.content())
     if len(rows) != h:
         out.append(("content rows", f"content() yields {len(rows)} rows, expected {h}"))
@@ -320,7 +345,7 @@ def _hist_detail(enc, size, focus, ops, probs, timeout):
     py = ["from urwid import vterm, util", f"util.set_encoding({enc!r})", "class W:", "    term_modes = vterm.TermModes(); respond = set_title = leds = staticmethod(print); beep = staticmethod(lambda: None)", f"t = vterm.TermCanvas({size[0]}, {size[1]}, W())"]
     if focus:
         py.append("t.has_focus = True")
-    show = "; print((t.width, t.height), len(t.term), [len(r) for r in t.content()], t.term_cursor, t.cursor, (t.scrollregion_start, t.scrollregion_end))"
+    show = "; print((t.width, t.height), len(t.term), len({id(r) for r in [*t.term, *t.scrollback_buffer]}) - len(t.scrollback_buffer), [len(r) for r in t.content()], t.term_cursor, t.cursor, (t.scrollregion_start, t.scrollregion_end))"
     cur_h = size[1]
     for op in ops:
         if op[0] in ("feed", "feed1"):
@@ -591,20 +616,23 @@ def diff(real, ref):
     rows, cur, replies = real[:3]
     want = ref.rows()
     if len(rows) != ref.h or any(len(rw) != ref.w for rw in rows):
-        return "shape", f"screen is not {ref.w}x{ref.h}"
+        return "shape", f"screen is {[len(rw) for rw in rows]}, not {ref.h} rows of {ref.w} cells"
     for y in range(ref.h):
         for x in range(ref.w):
             ch, fg, bg, cs, st = rows[y][x]
-            wch, wfg, wbg = want[y][x]
+            wch, wfg, wbg, wst = want[y][x]
             if ch != wch:
                 return "char", f"cell (col {x}, row {y}) holds {ch!r}, reference {wch!r}"
             if cs is not None:
                 return "charset", f"cell (col {x}, row {y}) carries charset {cs!r} although no charset was selected"
-            if st:
-                return "style", f"cell (col {x}, row {y}) carries styles {st} although only colours were selected"
-            if bg != wbg:
+            if wst is not ANY and set(st) != wst:  # erased while a rendition was in force / created by a resize: not constrained
+                return "style", f"cell (col {x}, row {y}) carries styles {st}, reference {sorted(wst)}"
+            # Colours are compared by what they denote (spec.vt100.denoted): urwid's AttrSpec cannot hold a palette index next
+            # to a 24-bit colour and then stores palette entries 16..255 as the fixed value xterm defines for them (entries 0..15,
+            # which are theme-dependent, stay indices).  Same colour on the screen, so not a divergence.  [oracle decision sC15]
+            if not colour_matches(bg, wbg):  # ANY (cells created by a resize): not constrained
                 return "bg", f"cell (col {x}, row {y}) {ch!r} has background {bg}, reference {wbg}"
-            if wfg is not ANY and fg != wfg:  # erased blanks: the foreground is not constrained
+            if not colour_matches(fg, wfg):  # ANY: erased blanks: the foreground is not constrained
                 return "fg", f"cell (col {x}, row {y}) {ch!r} has foreground {fg}, reference {wfg}"
     if cur != ref.cursor():
         return "cursor", f"cursor (col,row) is {cur}, reference {ref.cursor()}"
@@ -617,32 +645,71 @@ def _dump(rows):
     return ["".join(c[0] for c in rw) for rw in rows]
 
 
+def _tok_json(t):
+    """A token is a byte string fed to the terminal or ("resize", width, height)."""
+    return t.hex() if isinstance(t, bytes) else f"resize:{t[1]}x{t[2]}"
+
+
+def _tok_unjson(t):
+    if t.startswith("resize:"):
+        w, h = t[7:].split("x")
+        return ("resize", int(w), int(h))
+    return bytes.fromhex(t)
+
+
+def _faithful_python(w, h, setup, toks, focus=False, last="print([b''.join(c[2] for c in r) for r in t.term], t.term_cursor)"):
+    py = ["from urwid import vterm", "class W:", "    term_modes = vterm.TermModes(); respond = staticmethod(print)", f"t = vterm.TermCanvas({w}, {h}, W())"]
+    if focus:
+        py.append("t.has_focus = True")
+    data = setup
+    for t in toks:
+        if isinstance(t, bytes):
+            data += t
+            continue
+        if data:
+            py.append(f"t.addstr({data!r})")
+        py.append(f"t.resize({t[1]}, {t[2]})")
+        data = b""
+    if data:
+        py.append(f"t.addstr({data!r})")
+    return [*py, last]
+
+
 def faithful_case(size, setup, toks):
-    """toks: list of bytes.  Returns (status, detail) with status ok | fail | ambiguous | outofsubset."""
+    """toks: list of bytes | ("resize", w, h).  Returns (status, detail) with status ok | fail | ambiguous | outofsubset."""
     w, h = size
     ref = VT100(w, h)
     try:
         ref.feed(setup)
         for t in toks:
-            ref.feed(t)
+            if isinstance(t, bytes):
+                ref.feed(t)
+            else:
+                ref.resize(t[1], t[2])
     except Ambiguous as e:
         return "ambiguous", {"why": str(e)}
     except OutOfSubset as e:
         return "outofsubset", {"why": str(e)}
-    data = setup + b"".join(toks)
-    py = ["from urwid import vterm", "class W:", "    term_modes = vterm.TermModes(); respond = staticmethod(print)", f"t = vterm.TermCanvas({w}, {h}, W())", f"t.addstr({data!r})", "print([b''.join(c[2] for c in r) for r in t.term], t.term_cursor)"]
-    base = {"size": [w, h], "setup": setup.hex(), "tokens": [t.hex() for t in toks], "stream": repr(data), "expected_screen": _dump(ref.rows()), "expected_cursor": list(ref.cursor()), "python": py}
+    stream = " ".join(repr(t) if isinstance(t, bytes) else f"resize({t[1]},{t[2]})" for t in [setup, *toks] if t != b"")
+    base = {"size": [w, h], "setup": setup.hex(), "tokens": [_tok_json(t) for t in toks], "stream": stream, "expected_screen": _dump(ref.rows()), "expected_cursor": list(ref.cursor()), "python": _faithful_python(w, h, setup, toks)}
     with encoding("utf8"):
         try:
             tc, wd = make(w, h, True)
             tc.addstr(setup)
             for t in toks:
-                tc.addstr(t)
+                if isinstance(t, bytes):
+                    tc.addstr(t)
+                else:
+                    tc.resize(t[1], t[2])
             real = observe_real(tc, wd)
+            al = aliasing(tc)
         except Exception as e:  # noqa: BLE001
             return "fail", base | {"aspect": "raised", "why": f"raised {type(e).__name__}: {e}"}
     d = diff(real, ref)
     base["canvas_cursor"] = list(real[3]) if real[3] is not None else None
+    if d is None and al:
+        d = ("row-aliasing", al)
+        base["python"] = [*base["python"], "print(len({id(r) for r in [*t.term, *t.scrollback_buffer]}), 'distinct row objects for', len(t.term) + len(t.scrollback_buffer), 'rows')"]
     if d is None:
         return "ok", base
     return "fail", base | {"aspect": d[0], "why": d[1], "got_screen": _dump(real[0]), "got_cursor": list(real[1])}
@@ -672,15 +739,32 @@ def families(tier):
     insdel = [("CUP()", csi("H")), ("CUP(2,2)", csi("2;2H")), ("CUP(9,9)", csi("9;9H")), ("ICH", csi("@")), ("ICH(2)", csi("2@")), ("ICH(9)", csi("9@")), ("DCH", csi("P")), ("DCH(2)", csi("2P")), ("DCH(9)", csi("9P")), ("IL", csi("L")), ("IL(2)", csi("2L")), ("IL(9)", csi("9L")), ("DL", csi("M")), ("DL(2)", csi("2M")), ("DL(9)", csi("9M")), ("x", b"x"), ("SGR44", csi("44m"))]
     region = [("STBM(2,3)", csi("2;3r")), ("STBM()", csi("r")), ("STBM(1,2)", csi("1;2r")), ("STBM(3,3)", csi("3;3r")), ("STBM(3,2)", csi("3;2r")), ("STBM(2,)", csi("2r")), ("CUP()", csi("H")), ("CUP(2,1)", csi("2;1H")), ("CUP(3,9)", csi("3;9H")), ("CUP(9,1)", csi("9;1H")), ("CUP(9,9)", csi("9;9H")), ("LF", b"\n"), ("RI", ESC + b"M"), ("IND", ESC + b"D"), ("NEL", ESC + b"E"), ("x", b"x"), ("IL", csi("L")), ("DL", csi("M")), ("CUU(9)", csi("9A")), ("CUD(9)", csi("9B"))]
     sgr = [("SGR31", csi("31m")), ("SGR42", csi("42m")), ("SGR39", csi("39m")), ("SGR49", csi("49m")), ("SGR0", csi("0m")), ("SGR()", csi("m")), ("SGR91", csi("91m")), ("SGR104", csi("104m")), ("SGR38;5;200", csi("38;5;200m")), ("SGR48;5;1", csi("48;5;1m")), ("SGR31;42", csi("31;42m")), ("SGR0;34", csi("0;34m")), ("SGR38;2;1;2;3", csi("38;2;1;2;3m")), ("x", b"x"), ("EL2", csi("2K")), ("LF", b"\n")]
+    # Resizes as tokens (reference: VT100.resize).  From 3x2: the height grown by 1 / 2 / 3 rows (RESIZE(3,3) is the control:
+    # a single new row cannot alias), with the scroll-back empty or holding the one row that "scroll" pushed off (so a grow by
+    # 2+ takes what the scroll-back has and adds blank rows for the rest), the width grown, both at once, both shrunk, and back;
+    # then CUP into the new rows / columns and output there (print, erase in line, insert character, with a background colour
+    # so that erased cells are told apart).
+    rs = [("RESIZE(3,3)", ("resize", 3, 3)), ("RESIZE(3,4)", ("resize", 3, 4)), ("RESIZE(3,5)", ("resize", 3, 5)), ("RESIZE(5,2)", ("resize", 5, 2)), ("RESIZE(6,5)", ("resize", 6, 5)), ("RESIZE(2,1)", ("resize", 2, 1)), ("RESIZE(3,2)", ("resize", 3, 2))]
+    resize = [*rs, ("scroll", b"p\r\nq\r\nr"), ("x", b"x"), ("CUP()", csi("H")), ("CUP(3,1)", csi("3;1H")), ("CUP(4,2)", csi("4;2H")), ("CUP(9,9)", csi("9;9H")), ("CUP(1,4)", csi("1;4H")), ("LF", b"\n"), ("SGR44", csi("44m")), ("EL0", csi("K")), ("ICH", csi("@"))]
+    # Every token selects colours / renditions and prints one cell, so that what each SGR leaves selected is observed at once.
+    # Either side: default, basic, bright, 256-colour (an index below 16 and one above), 24-bit; both sides in one SGR with a
+    # 24-bit colour next to a basic one; SGRs that do not reset (the other side only, bold / underline / blink / negative and their
+    # resets), and the reset.
+    acc = ["31", "91", "38;5;200", "38;5;3", "38;2;1;2;3", "39", "42", "104", "48;5;100", "48;5;1", "48;2;4;5;6", "49", "38;2;10;20;30;44", "32;48;2;200;100;50", "93;48;5;7", "38;2;1;2;3;48;2;4;5;6", "1", "4", "5", "7", "24;25;27", "0", ""]
+    sgr_acc = [(f"SGR{a} x", csi(a + "m") + b"x") for a in acc]
     return {
-        # name: (tokens, [(size, filled?, maxlen[, first-token prefix required at length maxlen])...])
-        "text": (text, [((1, 1), False, 5 if q else 6), ((2, 3), False, 5 if q else 7), ((5, 4), False, 5 if q else 7), ((10, 2), False, 5 if q else 6)]),
+        # name: (tokens, [(size, filled?, maxlen[, first-token prefix(es) required at length maxlen])...])
+        # 1x2: one column, where every printed character ends in the last column (autowrap on every character)
+        "text": (text, [((1, 1), False, 5 if q else 6), ((1, 2), False, 4 if q else 6), ((2, 3), False, 5 if q else 7), ((5, 4), False, 5 if q else 7), ((10, 2), False, 5 if q else 6)]),
         "cursor": (cursor, [((2, 3), False, 4), ((5, 4), False, 3 if q else 4), ((1, 1), False, 3 if q else 4)]),
         "erase": (erase, [((2, 3), True, 3 if q else 4), ((5, 4), True, 3 if q else 4)]),
         "insdel": (insdel, [((2, 3), True, 3 if q else 4), ((5, 4), True, 3 if q else 4)]),
         # quick: length-4 sequences only when they start by setting a region (the interesting ones)
         "region": (region, [((5, 4), True, 4, "STBM" if q else None), ((2, 3), True, 3 if q else 4)]),
         "sgr": (sgr, [((3, 2), False, 3 if q else 4)]),
+        # length-4 sequences only when they start with a resize or by pushing a row into the scroll-back
+        "resize": (resize, [((3, 2), False, 4 if q else 5, ("RESIZE", "scroll")), ((3, 2), True, 3 if q else 4)]),
+        "sgr-accumulate": (sgr_acc, [((5, 1), False, 3 if q else 4)]),
     }
 
 
@@ -695,8 +779,8 @@ def _canvas_cursor_case(cc, key, names, detail):
         cc.case(key, True, None, True, sample={"size": detail["size"], "tokens": names})
     else:
         d = dict(detail)
-        d["python"] = [*detail["python"][:4], "t.has_focus = True", detail["python"][4], "print(t.cursor, t.term_cursor)"]
         w, h = detail["size"]
+        d["python"] = _faithful_python(w, h, bytes.fromhex(detail["setup"]), [_tok_unjson(t) for t in detail["tokens"]], focus=True, last="print(t.cursor, t.term_cursor)")
         kind = "missing (None)" if got is None else ("inside but wrong" if 0 <= got[0] < w and 0 <= got[1] < h else "outside the canvas")
         d.update({"token_names": names, "aspect": "canvas-cursor", "sig": f"canvas-cursor {kind}", "why": f"canvas cursor is {got}, reference cursor (col,row) {want} (term_cursor agrees with the reference)"})
         cc.case(key, False, d, True, sig=d["sig"])
@@ -704,7 +788,7 @@ def _canvas_cursor_case(cc, key, names, detail):
 
 def check_faithful_family(tier, seed, sh, name):
     tokens, scopes = families(tier)[name]
-    chk = SigCheck(f"C15/faithful-{name}", f"every sequence of tokens {[t[0] for t in tokens]} up to the length bound, fed to a fresh focused TermCanvas (after a screen-filling setup where noted) and to the reference VT100: equal characters, colours (erased blanks: background only), no stray charset/style, equal cursor and replies; sequences extending a diverged or ambiguous one are pruned", True, "; ".join(f"{sc[0][0]}x{sc[0][1]}{' filled' if sc[1] else ''} len<={sc[2]}" + (f" (len {sc[2]} only after a {sc[3]} token)" if len(sc) > 3 and sc[3] else "") for sc in scopes))
+    chk = SigCheck(f"C15/faithful-{name}", f"every sequence of tokens {[t[0] for t in tokens]} up to the length bound, fed to a fresh focused TermCanvas (after a screen-filling setup where noted) and to the reference VT100: equal characters, colours (erased blanks: background only), no stray charset/style, equal cursor and replies; sequences extending a diverged or ambiguous one are pruned", True, "; ".join(f"{sc[0][0]}x{sc[0][1]}{' filled' if sc[1] else ''} len<={sc[2]}" + (f" (len {sc[2]} only after a {'/'.join([sc[3]] if isinstance(sc[3], str) else sc[3])} token)" if len(sc) > 3 and sc[3] else "") for sc in scopes))
     cc = _canvas_cursor_check()
     for scope in scopes:
         size, filled, maxlen = scope[:3]
@@ -946,7 +1030,7 @@ def run(tier="quick", seed=0):
             else:
                 chk.t0 = min(chk.t0, t0)
                 merged[chk.name] = chk
-    bound = "TermCanvas with a fake widget; robustness: 24-byte alphabet strings <= " + ("2 (+sampled 3)" if tier == "quick" else "3") + f" x sizes {SIZES} x resizes/chunkings x encodings, all CSI finals x parameter lists incl. 70000 and 10^9, OSC/charset/UTF-8 payloads, scrolled-back view x resizes; faithfulness: exhaustive token sequences per family (length 3-7 by family) + seeded random mixes vs spec/vt100.py; scrollback: token sequences <= " + ("4" if tier == "quick" else "5")
+    bound = "TermCanvas with a fake widget; robustness: 24-byte alphabet strings <= " + ("2 (+sampled 3)" if tier == "quick" else "3") + f" x sizes {SIZES} x resizes/chunkings x encodings, all CSI finals x parameter lists incl. 70000 and 10^9, OSC/charset/UTF-8 payloads, scrolled-back view x resizes; no two rows of term/scroll-back the same object after every step; faithfulness: exhaustive token sequences per family (length 3-7 by family; incl. resizes as tokens from 3x2 to heights +1/+2/+3 and widths +2/+3 with empty and partly sufficient scroll-back, SGR sequences mixing 24-bit/256/basic/bright colours with non-resetting SGRs, one-column screens) + seeded random mixes vs spec/vt100.py; scrollback: token sequences <= " + ("4" if tier == "quick" else "5")
     return {"checks": [c.result() for c in merged.values()], "bound": bound}
 
 
@@ -955,7 +1039,7 @@ def replay(check_name, case):
         ops = [_op_unjson(o) for o in case["ops"]]
         probs = run_history(case["enc"], tuple(case["size"]), case.get("focus", True), ops, case.get("timeout", 2.0))
         return {"outcome": "confirmed" if probs else "not-reproduced", "detail": {"why": "; ".join(w for _, w in probs), "sig": " + ".join(sorted(s for s, _ in probs))}}
-    toks = [bytes.fromhex(t) for t in case["tokens"]]
+    toks = [_tok_unjson(t) for t in case["tokens"]]
     size = tuple(case["size"])
     if check_name.startswith("C15/scrollback"):
         status, _, kd, vd = scrollback_case(size, toks)
